@@ -113,7 +113,7 @@ func (ex *Exec) scanCallWrites(c *ssa.CallCommon, ws *writeSet, depth int, seen 
 
 func (ex *Exec) scanFuncWrites(fn *ssa.Function, ws *writeSet, depth int, seen map[*ssa.Function]bool) {
 	if ex.eng.inModule(fn) {
-		if fc := ex.eng.contractFor(fn, ex.aspect); fc != nil && !fc.Inline {
+		if fc := ex.calleeContract(fn); fc != nil && !fc.Inline {
 			ex.scanContractWrites(fc, fn, ws)
 			ws.allocs = true
 			return
@@ -731,7 +731,7 @@ func (ex *Exec) callKeepsReadOnly(c *ssa.CallCommon, v ssa.Value, depth int) boo
 
 func (ex *Exec) paramReadOnly(fn *ssa.Function, idx int, depth int) bool {
 	if ex.eng.inModule(fn) {
-		if fc := ex.eng.contractFor(fn, ex.aspect); fc != nil && !fc.Inline {
+		if fc := ex.calleeContract(fn); fc != nil && !fc.Inline {
 			return !modifiesParam(fc, fn.Params[idx].Name())
 		}
 		if len(fn.Blocks) == 0 {
